@@ -321,11 +321,17 @@ def indexOp (H : Host ω σ) (h : σ) (a i : V ω) : X ω (V ω) :=
   | .int _ => raiseX xTypeError
   | _ => raiseX xUnsupported
 
+/-- slice bound: `None` (omitted) is the default, otherwise an integer -/
+def boundOf (dflt : Int) : V ω → Option Int
+  | .none => some dflt
+  | v => asInt? v
+
+/-- `a[lo:hi]` on bytes: Python's clamping of negative / too large bounds is `pySlice` -/
 def sliceOp (a lo hi : V ω) : X ω (V ω) :=
   match a with
   | .bytes b =>
-    (match normBound b.length 0 lo, normBound b.length b.length hi with
-     | some l, some u => .ok (.bytes (slice b l u))
+    (match boundOf 0 lo, boundOf (b.length : Int) hi with
+     | some l, some u => .ok (.bytes (pySlice b l u))
      | _, _ => raiseX xUnsupported)
   | .none => raiseX xTypeError
   | .int _ => raiseX xTypeError
@@ -754,6 +760,71 @@ theorem execS_continue (H : Host ω σ) (fuel : Nat) (st : St ω σ) : execS H f
 theorem execS_break (H : Host ω σ) (fuel : Nat) (st : St ω σ) : execS H fuel .break_ st = (.ok .brk, st) := by rw [execS]
 theorem execS_pass (H : Host ω σ) (fuel : Nat) (st : St ω σ) : execS H fuel .pass st = (.ok .next, st) := by rw [execS]
 
+theorem slice_min (m : Bytes) (a b : Nat) : slice m (min a m.length) b = slice m a b := by
+  unfold slice
+  by_cases h : a ≤ m.length
+  · rw [Nat.min_eq_left h]
+  · have h' : m.length ≤ a := by omega
+    rw [Nat.min_eq_right h', List.drop_length, List.drop_eq_nil_of_le h']
+    simp
+
+theorem slice_min_both (m : Bytes) (a b : Nat) : slice m (min a m.length) (min b m.length) = slice m a b := by
+  rw [slice_min]
+  unfold slice
+  by_cases h : b ≤ m.length
+  · rw [Nat.min_eq_left h]
+  · have h' : m.length ≤ b := by omega
+    rw [Nat.min_eq_right h']
+    rw [List.take_of_length_le (by rw [List.length_drop]; omega), List.take_of_length_le (by rw [List.length_drop]; omega)]
+
+/-- non-negative bounds (numerals: the side conditions are closed by `Int.reduceLE`) -/
+theorem pySlice_nonneg (p : Bytes) (a b : Int) (ha : 0 ≤ a) (hb : 0 ≤ b) : pySlice p a b = slice p a.toNat b.toNat := by
+  obtain ⟨i, rfl⟩ := Int.eq_ofNat_of_zero_le ha
+  obtain ⟨j, rfl⟩ := Int.eq_ofNat_of_zero_le hb
+  unfold pySlice
+  simp only [Int.toNat_natCast]
+  have e : ∀ k : Nat, (if (k : Int) < 0 then (if (k : Int) + (p.length : Int) < 0 then 0 else (k : Int) + p.length)
+      else if (k : Int) > (p.length : Int) then (p.length : Int) else (k : Int)).toNat = min k p.length := by
+    intro k
+    have : ¬ ((k : Int) < 0) := by omega
+    simp only [this, if_false]
+    split <;> omega
+  rw [e i, e j, slice_min_both]
+
+/-- `x[len(x) - 2 : len(x)]` (Python wraps a negative bound once: right for `len(x) < 2` too) -/
+theorem pySlice_tail2 (p : Bytes) : pySlice p ((p.length : Int) - 2) (p.length : Int) = slice p (p.length - 2) p.length := by
+  unfold pySlice
+  simp only []
+  have e1 : (if (p.length : Int) - 2 < 0 then (if (p.length : Int) - 2 + (p.length : Int) < 0 then 0 else (p.length : Int) - 2 + p.length)
+      else if (p.length : Int) - 2 > (p.length : Int) then (p.length : Int) else (p.length : Int) - 2).toNat = p.length - 2 := by
+    split
+    · split <;> omega
+    · split <;> omega
+  have e2 : (if (p.length : Int) < 0 then (if (p.length : Int) + (p.length : Int) < 0 then 0 else (p.length : Int) + p.length)
+      else if (p.length : Int) > (p.length : Int) then (p.length : Int) else (p.length : Int)).toNat = p.length := by
+    have : ¬ ((p.length : Int) < 0) := by omega
+    simp only [this, if_false]
+    split <;> omega
+  rw [e1, e2]
+
+/-- `x[a : len(x) - 2]` for a non-negative `a` -/
+theorem pySlice_to_tail2 (p : Bytes) (a : Int) (ha : 0 ≤ a) :
+    pySlice p a ((p.length : Int) - 2) = slice p a.toNat (p.length - 2) := by
+  obtain ⟨i, rfl⟩ := Int.eq_ofNat_of_zero_le ha
+  unfold pySlice
+  simp only [Int.toNat_natCast]
+  have e1 : (if (p.length : Int) - 2 < 0 then (if (p.length : Int) - 2 + (p.length : Int) < 0 then 0 else (p.length : Int) - 2 + p.length)
+      else if (p.length : Int) - 2 > (p.length : Int) then (p.length : Int) else (p.length : Int) - 2).toNat = p.length - 2 := by
+    split
+    · split <;> omega
+    · split <;> omega
+  have e2 : (if (i : Int) < 0 then (if (i : Int) + (p.length : Int) < 0 then 0 else (i : Int) + p.length)
+      else if (i : Int) > (p.length : Int) then (p.length : Int) else (i : Int)).toNat = min i p.length := by
+    have : ¬ ((i : Int) < 0) := by omega
+    simp only [this, if_false]
+    split <;> omega
+  rw [e1, e2, slice_min]
+
 theorem normBound_nat (n d k : Nat) : normBound (ω := ω) n d (.int (k : Int)) = some (min k n) := by
   simp only [normBound, asInt?]
   congr 1
@@ -784,14 +855,24 @@ theorem execB_cons (H : Host ω σ) (fuel : Nat) (s : S) (ss : List S) (st : St 
       | (.ok .next, st') => execB H fuel ss st'
       | (.ok fl, st') => (.ok fl, st')) := by rw [execB]
 
+/-- a one-statement block is that statement -/
+theorem execB_one (H : Host ω σ) (fuel : Nat) (s : S) (st : St ω σ) : execB H fuel [s] st = execS H fuel s st := by
+  rw [execB_cons]
+  generalize execS H fuel s st = r
+  obtain ⟨r1, st'⟩ := r
+  cases r1 with
+  | error x => rfl
+  | ok fl => cases fl <;> simp [execB_nil]
+
 /-- one statement executed normally: go on with the rest -/
 theorem execB_step (H : Host ω σ) (fuel : Nat) (s : S) (ss : List S) (st st' : St ω σ)
     (h : execS H fuel s st = (.ok .next, st')) : execB H fuel (s :: ss) st = execB H fuel ss st' := by
   rw [execB_cons, h]
 
 attribute [pyeval] execS_expr execS_assign execS_assignT execS_aug execS_setAttr execS_ret execS_raise execS_if
-  execS_for execS_while execS_try execS_continue execS_break execS_pass execB_nil
-  evalE evalEs evalCond setVar getVar bindT binOp binInt asInt? cmpOp cmpOrd pyEq memTuple isNone truthy indexOp sliceOp
+  execS_for execS_while execS_try execS_continue execS_break execS_pass execB_nil execB_one
+  Bool.not_true Bool.not_false Int.cast_ofNat_Int
+  evalE evalEs evalCond setVar getVar bindT binOp binInt asInt? cmpOp cmpOrd pyEq memTuple isNone truthy indexOp sliceOp boundOf pySlice_nonneg pySlice_tail2 pySlice_to_tail2
   builtin builtinMethod iterOf excCls kwArg normBound_nat normBound_nonneg normBound_none normBound_len_sub2
   fLen fBytes fInt fIntFromBytes mHex kByteorder kSigned sLittle sBig
   List.zip_cons_cons List.zip_nil_right List.zip_nil_left List.contains_cons List.contains_nil
@@ -802,6 +883,9 @@ attribute [pyeval] execS_expr execS_assign execS_assignT execS_aug execS_setAttr
 macro "pysimp" : tactic => `(tactic| simp only [pyeval, Nat.reduceEqDiff, ↓reduceIte, Int.reduceLE, Int.reduceLT, Int.reduceToNat, Int.reduceNeg, Int.reduceSub, Int.reduceAdd])
 /-- … with extra rewrite rules -/
 macro "pysimp" "[" ls:Lean.Parser.Tactic.simpLemma,* "]" : tactic => `(tactic| simp only [pyeval, Nat.reduceEqDiff, ↓reduceIte, Int.reduceLE, Int.reduceLT, Int.reduceToNat, Int.reduceNeg, Int.reduceSub, Int.reduceAdd, $ls,*])
+/-- execute the next statement of the block at the head of the goal -/
+macro "pystep" : tactic => `(tactic| (rw [execB_cons]; pysimp))
+macro "pystep" "[" ls:Lean.Parser.Tactic.simpLemma,* "]" : tactic => `(tactic| (rw [execB_cons]; pysimp [$ls,*]))
 
 /-- a `for` loop over bytes whose body acts on the state like a fold step (`x` = the loop variable's value) -/
 theorem forLoop_fold {β : Type} (body : V ω → St ω σ → X ω (Flow ω) × St ω σ) (f : β → Byte → β)
